@@ -33,6 +33,10 @@ func main() {
 		err = cmdSyncMap(*in, *out)
 	case "race":
 		err = cmdRace(*in)
+	case "placeholder":
+		err = cmdPlaceholder(*in, *out)
+	case "config":
+		err = cmdConfig(*in, *out)
 	case "cache":
 		err = cmdCache(*in, *out, *names)
 	default:
